@@ -28,6 +28,7 @@ RULE = ("histories of 12-32 operations in a process that keeps its state from ca
         "the long-lived object or on a fresh copy. Non-trivial = the history holds >=2 different configurations, a drop, and a "
         "rendering of an enum / compound-palette object after the drop; distinct by operation-sequence hash.")
 ASSUMPTIONS = [
+    "configuration maps in the histories part never point a component's syntax at a syntax declared only by another component's palette (known finding K1: such references resolve lazily; exercised by the part known_cross_component_reference)",
     "finding identity-keyed cache bugs relies on CPython reusing the address of a dropped object (frequent, not guaranteed); judging does not: the baseline comes from a process without history",
     "extra syntax items registered in the histories use ids that no component palette declares (otherwise first-registration-wins makes the result order dependent by design, see C14)",
     "console help takes its colours from the global configuration in force when the help command object is created; its no-colour form is rendered under a no_color global configuration",
@@ -339,10 +340,46 @@ def regression_cases():
     yield {"objs": [{"k": "table", "case": tcase}], "confs": confs, "ops": ops}
 
 
+def eval_cross_component(case):
+    """KNOWN FINDING K1 (see DESIGN.md section 2): a configuration may point a syntax of one component at a syntax that
+    only another component declares ('TABLE.BORDER': 'GHIST.REPO'). Component defaults are registered lazily, on first
+    use with that configuration, so the first object's colours depend on whether the other component has been
+    rendered under the configuration before. The main histories part never generates such references (excluded by
+    construction); this part exercises exactly that situation so that the finding stays visible and identified."""
+    import ak.color as C
+    from vlib import render_objs as RO
+    f = []
+    spec = case["conf"]
+    conf = RO.build_config(C, spec)
+    first = RO.Obj(case["first"])
+    other = RO.Obj(case["other"])
+    s1 = first.render(C, conf)["whole"]
+    other.render(C, conf)
+    s2 = first.render(C, conf)["whole"]
+    if s1 != s2:
+        kind = "colors" if _safe_strip(s1) == _safe_strip(s2) else "text"
+        f.append((f"cross_component_syntax_reference_resolves_only_after_other_component_was_rendered_{kind}",
+                  f"config {spec['map']!r}: {case['first']['k']} rendered, then {case['other']['k']}, then "
+                  f"{case['first']['k']} again: {s1[:60]!r} vs {s2[:60]!r}"))
+    return Outcome(True, ["cross_component_reference"], f, key=[spec["map"], case["first"]["k"], case["other"]["k"]])
+
+
+def cross_component_cases():
+    table = {"k": "table", "case": {"kind": "tuple", "fields": ["a", "b"], "records": [[1, "x"]], "cols": None, "titles": {},
+                                    "enums": {}, "header": None, "footer": None, "limits": None, "limits_via": "fmt", "skip": []}}
+    ghist = {"k": "ghist", "which": 0}
+    hdoc = {"k": "hdoc", "target": "Sample", "level": 1}
+    yield {"conf": {"map": {"TABLE.BORDER": "GHIST.REPO"}, "no_color": False, "regs": []}, "first": table, "other": ghist}
+    yield {"conf": {"map": {"GHIST.HASH": "TABLE.HEADER"}, "no_color": False, "regs": []}, "first": ghist, "other": table}
+    yield {"conf": {"map": {"TABLE.HEADER": "GHIST.BRANCH:underline"}, "no_color": False, "regs": []}, "first": table, "other": ghist}
+
+
 def parts(tier):
     k = 1 if tier == "quick" else 30
     return [
         Part("regressions", evaluate, enumerate=regression_cases, exhaustive=True),
+        Part("known_cross_component_reference", eval_cross_component, enumerate=cross_component_cases, exhaustive=True,
+             note="known finding K1, kept visible; such references are excluded from the histories part by construction"),
         Part("histories", evaluate, strategy=st_case, examples=3200 * k),
     ]
 
